@@ -328,6 +328,16 @@ class Ctx:
         }
         if self.exhaustive is not None:
             cov["exhaustive"] = self.exhaustive
+        st = os.path.join(OUT, "selftest.json")
+        if os.path.exists(st):
+            try:
+                with open(st) as f:
+                    j = json.load(f)
+                cov["binding_selftest"] = {"ok": j.get("ok"), "cases": len(j.get("cases", [])),
+                                           "meaning": "bin/selftest (run by setup): each trace specification rejects a recorded trace "
+                                                      "with one corrupted field, and accepts the replay of every repaired defect"}
+            except Exception:
+                pass
         cov.update(self.extra)
         ev = {
             "property_id": self.pid,
